@@ -116,10 +116,18 @@ CLAIMED.update({
             "DESIGN.md §4 C19"),
 })
 
+CLAIMED.update({
+    "C16": ("type-level scan of JSON decode destinations on the conversion path + writer/reader key agreement (constants and struct tags) + guard dominance + value derivation over go/ssa (thin claim)",
+            "Four structural necessary conditions: numbers are never decoded through interface{} or a float type on the conversion path (they stay text and are read by the MRO value parser, so large integers survive); "
+            "the object key SplitExp.encodeJSON writes equals the JSON tag convertToExp reads; the split status of an argument is recorded on the *SplitExp edge and restored by wrapping under the split flag; "
+            "the per-fork invocation is BuildCallSource of this fork's resolved inputs.",
+            "Thin: equality of values after a round trip (struct/map decisions, float printing), escapes (C09), and that the recorded invocation compiles are not decided.",
+            "DESIGN.md §4 C16 / §9"),
+})
+
 NOT_APPLICABLE = {
     "C01": "Equality of delivered argument values with the denotation of binding expressions quantifies over run-time JSON values and fork matching for all programs; no clause is a fact about the shape of the code, so any static rule would be a proxy, not a necessary condition.",
     "C13": "Materialisation of files under outs/ and the rewritten _outs are file-system effects and hand-assembled JSON values; the only structural candidate (bracket pairing of the JSON writers) does not imply validity and is exercised by the existing golden tests.",
-    "C16": "Round-trip equality of MRO text and invocation JSON depends on per-value struct/map decisions and number printing; the one structural fact (the split key written equals the tag read) is too small to stand for the property.",
 }
 
 PENDING_REASON = "check not built yet in this revision (planned static rules are described in DESIGN.md §4); not claimed until the rule is armed and tested both ways"
